@@ -834,5 +834,10 @@ def cast_cases(rnd, n, prefix="K"):
             orc = f"out = mk(data(x).astype({npd}), mask(x))"
         else:
             orc = f"out = x.astype({npd})"
-        out.append(mkcase(cid, {"x": x}, f"out = ndx.astype(x, ndx.{b})", orc, meta, rnd, symbolic=False))
+        impl = f"out = ndx.astype(x, ndx.{b})"
+        if bb in ops.INTS + ops.FLOATS and a != b and rnd.random() < 0.25:
+            # the same cast again after an earlier result of it has been written to: casts are independent values
+            impl = f"y_ = ndx.astype(x, ndx.{b}); y_[...] = 1; out = ndx.astype(x, ndx.{b})"
+            meta["history"] = "cast-write-cast"
+        out.append(mkcase(cid, {"x": x}, impl, orc, meta, rnd, symbolic=False))
     return out
